@@ -329,12 +329,18 @@ def parse_mimetype(mimetype: str) -> MimeType:
             type="", subtype="", suffix="", parameters=MultiDictProxy(MultiDict())
         )
 
-    parts = mimetype.split(";")
+    # A ";" inside a quoted-string does not end the parameter.
+    parts = re.findall(r'((?:[^;"]|"(?:[^"\\]|\\.)*"?)*)(?:;|$)', mimetype)
     params: MultiDict[str] = MultiDict()
     for item in parts[1:]:
         if not item.strip():
             continue
         key, _, value = item.partition("=")
+        value = value.strip()
+        if len(value) > 1 and value[0] == value[-1] == '"':
+            # quoted-string: the content as it is, less the quoted-pair escapes
+            params.add(key.lower().strip(), re.sub(r"\\(.)", r"\1", value[1:-1]))
+            continue
         params.add(key.lower().strip(), value.strip(' "'))
 
     fulltype = parts[0].strip().lower()
